@@ -157,8 +157,12 @@ def run(tier: str) -> int:
             rep.machinery(f"TLC failed on DirDiff: {r.error or r.out[-600:]}")
             return rep.finish()
         cases = json.loads(out.read_text())
-        names = {"x": "alpha", "y": "beta.txt"}
-        events = [run_case(c["a"], c["b"], names, rng) for c in cases]
+        # concrete names: per case from families that stress sorting and prefix handling ('.' and ' ' sort before '/',
+        # one name a prefix of the other, case, leading dot, non-ASCII, digits of different length)
+        NAME_MAPS = [{"x": "alpha", "y": "beta.txt"}, {"x": "a", "y": "a.b"}, {"x": "a", "y": "a b"}, {"x": "run1", "y": "run10"},
+                     {"x": "A", "y": "a"}, {"x": ".hidden", "y": "visible"}, {"x": "ä", "y": "z"}, {"x": "a-b", "y": "a"},
+                     {"x": "10", "y": "9"}, {"x": "a+", "y": "a"}]
+        events = [run_case(c["a"], c["b"], NAME_MAPS[j % len(NAME_MAPS)], rng) for j, c in enumerate(cases)]
         rep.parts["exhaustive_pairs"] = {"pairs": len(events)}
         # random larger trees (4 keys, depth 3), related and unrelated pairs
         keys = ["a", "b", "c", "d"]
@@ -166,7 +170,8 @@ def run(tier: str) -> int:
         for k in range(n_rand):
             t1 = random_tree(rng, keys, 3)
             t2 = mutate_tree(rng, t1, keys, 3) if k % 3 else random_tree(rng, keys, 3)
-            events.append(run_case(t1, t2, {}, rng, annotate_dir=(wd / "ann") if k % (3 if quick else 5) == 0 else None))
+            rmap = {} if k % 2 else dict(zip(keys, rng.sample(["a", "a.b", "a b", "ab", "a-", "A", ".a", "ä", "10", "9", "b", "a+"], 4)))
+            events.append(run_case(t1, t2, rmap, rng, annotate_dir=(wd / "ann") if k % (3 if quick else 5) == 0 else None))
         rep.parts["random_pairs"] = {"pairs": n_rand, "keys": keys, "depth": 3}
         for e in events:
             if e["mutated"]:
